@@ -10,6 +10,8 @@ matching is returned.
 """
 from __future__ import annotations
 
+import ast
+
 from ..core import sym, symeval
 from ..core.loader import Project
 from ..core.values import Arr, Bag, Blocks, Sc, Seq
@@ -169,6 +171,12 @@ def check_bottleneck(rep, project):
         _bottleneck_table(rep, run, D)
         return
     ev = appends[-1]
+    sites = {}
+    for a_ in appends:
+        sites[id(a_["node"])] = a_          # the last evaluation of every append site
+    if len(sites) > 1:
+        _bottleneck_sites(rep, run, D, sorted(sites.values(), key=lambda a_: a_["node"].lineno))
+        return
     items = ev["pos"][0].items
     if not all(isinstance(x, Sc) for x in items):
         rep.unmodelled("MT-COST", fi, ev["node"], "matching row entries are not scalars")
@@ -205,6 +213,57 @@ def check_bottleneck(rep, project):
         return
     check_rows(rep, run, D, (items[0].e, items[1].e, items[2].e), ev["reach"], raw_r, raw_c, ev["node"],
                "bottleneck matching row")
+
+
+def _bottleneck_sites(rep, run: Run, D: Blocks, sites):
+    """the rows are appended at several places of the listing loop (one per case: both points real, first on the diagonal,
+    second on the diagonal): every site is one part of the table — its entries are checked under its own path condition, and
+    the path conditions together must list every pair that is not diagonal–diagonal exactly once"""
+    fi = run.fi
+    M, N = sym.Size(("rows", run.a)), sym.Size(("rows", run.b))
+    raw_r = raw_c = None
+    conds = []
+    lp0 = None
+    for k, ev in enumerate(sites):
+        items = ev["pos"][0].items
+        if not all(isinstance(x, Sc) for x in items):
+            rep.unmodelled("MT-COST", fi, ev["node"], "matching row entries are not scalars")
+            return
+        loops = [l for l in run.events("loop") if l["fi"] is ev["fi"] and l["loop_kind"] == "for" and l["ivar"]
+                 and l["node"].lineno <= ev["node"].lineno <= l["node"].end_lineno]
+        if not loops:
+            rep.unmodelled("MT-COVER", fi, ev["node"], "row-listing loop not found")
+            return
+        lp = loops[-1]
+        if lp0 is None:
+            lp0 = lp
+        elif lp["node"] is not lp0["node"]:
+            rep.unmodelled("MT-COVER", fi, ev["node"], "rows are appended in different loops")
+            return
+        rr = sym.IV(lp["ivar"])
+        partners = {x for it in items for x in sym.walk(it.e) if x[0] == "opq" and x[1] == "hk_partner"} \
+            | {x for x in sym.walk(ev["reach"]) if x[0] == "opq" and x[1] == "hk_partner"}
+        if len(partners) != 1:
+            rep.unmodelled("MT-COST", fi, ev["node"], f"expected one partner lookup in the accepted matching per row, found "
+                                                      f"{len(partners)}")
+            return
+        rc = next(iter(partners))
+        if raw_c is not None and (rc != raw_c or rr != raw_r):
+            rep.unmodelled("MT-PROV", fi, ev["node"], "the append sites look partners up in different ways")
+            return
+        raw_r, raw_c = rr, rc
+        if k == 0:
+            if sym.equal(lp["space"].size, sym.add(M, N)):
+                rep.discharged("MT-COVER", fi, lp["node"], "the listing loop visits every one of the M+N rows of the matrix")
+            else:
+                rep.refuted("MT-COVER", fi, lp["node"], f"the listing loop visits {sym.show(lp['space'].size)} rows instead of "
+                                                        f"M+N: some points never appear in the matching")
+            if not _partner_key_ok(rep, fi, ev["node"], raw_c, raw_r):
+                return
+        conds.append(ev["reach"])
+        check_rows(rep, run, D, (items[0].e, items[1].e, items[2].e), ev["reach"], raw_r, raw_c, ev["node"],
+                   f"bottleneck matching row (append site {k + 1} of {len(sites)})", drop=False)
+    _parts_union(rep, fi, sites[0]["node"], conds, raw_r, raw_c, M, N)
 
 
 def _partner_key_ok(rep, fi, node, raw_c, raw_r):
@@ -394,6 +453,14 @@ def _bottleneck_table(rep, run: Run, D: Blocks):
                    drop=len(parts) == 1)
     rep.discharged("MT-COVER", fi, node, "the table is drawn from all M+N rows of the matrix (before rows are selected)")
     if len(parts) > 1:
+        _parts_union(rep, fi, node, conds, raw_r, raw_c, M, N)
+
+
+def _parts_union(rep, fi, node, conds, raw_r, raw_c, M, N):
+    """the parts of a table (or the append sites of a listing loop) together list every row that is not a diagonal–diagonal
+    pair, each once"""
+    parts = conds
+    if len(parts) > 1:
         spec_cond = sym.Not(sym.And(sym.Cmp(">=", raw_r, M), sym.Cmp(">=", raw_c, N)))
         dom = sym.And(sym.Cmp(">=", raw_r, sym.ZERO), sym.Cmp("<", raw_r, sym.add(M, N)))  # positions of the matrix
         union = sym.And(dom, sym.Or(*conds))
@@ -423,6 +490,7 @@ def _bottleneck_table(rep, run: Run, D: Blocks):
             rep.unmodelled("MT-DROP", fi, node, f"cannot evaluate the listing condition ({w})")
 
 
+
 def check_wasserstein(rep, project):
     run = Run(project, WS, matching="sym")
     fi = run.fi
@@ -448,7 +516,11 @@ def check_wasserstein(rep, project):
             if x[0] == "opq" and x[1] in ("lsa_rows", "lsa_cols") and x[3] == uid:
                 dep = x[2][0]
     if dep is None:
-        rep.refuted("MT-PROV", fi, rev["node"], "the returned matching does not derive from the solver's index arrays")
+        if run.interp.clean_before(rev):
+            rep.refuted("MT-PROV", fi, rev["node"], "the returned matching does not derive from the solver's index arrays")
+        else:
+            rep.unmodelled("MT-PROV", fi, rev["node"], "how the returned matching derives from the solver's index arrays was not "
+                                                       "followed (a step of the run was not modelled)")
         return
     raw_r = sym.Opq("lsa_rows", (dep, sym.IV(riv)), uid)
     raw_c = sym.Opq("lsa_cols", (dep, sym.IV(riv)), uid)
@@ -459,6 +531,179 @@ def check_wasserstein(rep, project):
     else:
         rep.refuted("MT-COVER", fi, rev["node"], f"rows range over {parent} instead of the solver's M+N pairs")
     check_rows(rep, run, D, cols, cond, raw_r, raw_c, rev["node"], "Wasserstein matching row")
+
+
+# ---------------------------------------------------------------------------------------------------------------------------
+# MT-ACCEPT: the matching that is reported was found at the distance that is reported (pairing of two updates)
+def _guards(w, stmt):
+    """the chain of (test, arm) of the `if`s of the loop `w` that enclose `stmt`, and the statement list that holds it"""
+    def rec(body, chain):
+        for st in body:
+            if st is stmt:
+                return chain, body
+            if isinstance(st, ast.If):
+                for arm, b in (("then", st.body), ("else", st.orelse)):
+                    r = rec(b, chain + ((ast.dump(st.test), arm),))
+                    if r is not None:
+                        return r
+            elif isinstance(st, (ast.For, ast.While, ast.With, ast.Try)):
+                for b in [getattr(st, f, []) for f in ("body", "orelse", "finalbody")]:
+                    r = rec(b, chain + (("<" + type(st).__name__ + ">", ""),))
+                    if r is not None:
+                        return r
+        return None
+    return rec(w.body, ())
+
+
+def _pick_kind(e, holder):
+    """how an expression takes one recorded matching out of the container `holder`: 'last' | 'first' | None"""
+    txt = ast.unparse(e).replace(" ", "")
+    h = holder
+    last = (f"{h}[-1]", f"next(reversed({h}.values()))", f"next(reversed({h}.values()),", f"next(reversed({h}))",
+            f"next(reversed({h}),", f"list({h}.values())[-1]", f"{h}.popitem()[1]", f"{h}.pop()", f"{h}[max({h})]",
+            f"[*{h}.values()][-1]", f"{h}[len({h})-1]", f"tuple({h}.values())[-1]")
+    first = (f"{h}[0]", f"next(iter({h}.values()))", f"next(iter({h}.values()),", f"next(iter({h}))", f"next(iter({h}),",
+             f"list({h}.values())[0]", f"{h}.pop(0)", f"{h}.popleft()", f"[*{h}.values()][0]", f"tuple({h}.values())[0]")
+    for pat in last:
+        if txt == pat or (pat.endswith(",") and txt.startswith(pat)):
+            return "last"
+    for pat in first:
+        if txt == pat or (pat.endswith(",") and txt.startswith(pat)):
+            return "first"
+    return None
+
+
+def check_accept(rep, project):
+    from .c01 import _while_of
+    from .common import fn_view
+    fi = project.function(BN)
+    view = fn_view(project, fi)
+    w = _while_of(fi, view)
+    # the name of the reported distance: the first component of what the function returns
+    dist = set()
+    for n in ast.walk(view):
+        if isinstance(n, ast.Return) and n.value is not None:
+            v = n.value.elts[0] if isinstance(n.value, ast.Tuple) and n.value.elts else n.value
+            if isinstance(v, ast.Name):
+                dist.add(v.id)
+    if len(dist) != 1:
+        rep.unmodelled("MT-ACCEPT", fi, w, "the returned distance is not one local name")
+        return
+    dist = next(iter(dist))
+    # names that hold the result of the matching library for the current probe
+    res = set()
+    inside = {id(x) for x in ast.walk(w)}
+    outside = {x.id for x in ast.walk(view) if isinstance(x, ast.Name) and id(x) not in inside}   # names the loop shares
+    for st in w.body:
+        for n in ast.walk(st):
+            if isinstance(n, ast.Assign) and len(n.targets) == 1 and isinstance(n.targets[0], ast.Name):
+                if any(isinstance(c, ast.Call) and isinstance(c.func, ast.Attribute) and c.func.attr == "maximum_matching"
+                       for c in ast.walk(n.value)) or (
+                        isinstance(n.value, (ast.Name, ast.IfExp)) and any(isinstance(x, ast.Name) and x.id in res for x in (
+                            [n.value] if isinstance(n.value, ast.Name) else [n.value.body, n.value.orelse]))
+                        and n.targets[0].id not in outside):
+                    res.add(n.targets[0].id)
+    if not res:
+        rep.unmodelled("MT-ACCEPT", fi, w, "no name in the search loop holds the matching found for the current probe")
+        return
+    updates = [n for n in ast.walk(w) if isinstance(n, ast.Assign) and any(isinstance(t, ast.Name) and t.id == dist for t in n.targets)]
+    if not updates:
+        rep.unmodelled("MT-ACCEPT", fi, w, f"`{dist}` is not updated inside the search loop")
+        return
+    # records of the probe's matching: holder = res / holder[k] = res / holder.append(res)
+    records = []
+    for n in ast.walk(w):
+        if isinstance(n, ast.Assign) and isinstance(n.value, ast.Name) and n.value.id in res and len(n.targets) == 1:
+            t = n.targets[0]
+            if isinstance(t, ast.Name) and t.id not in res:
+                records.append((n, t.id, "name"))
+            elif isinstance(t, ast.Subscript) and isinstance(t.value, ast.Name):
+                records.append((n, t.value.id, "const-key" if isinstance(t.slice, ast.Constant) else "keyed"))
+        elif isinstance(n, ast.Expr) and isinstance(n.value, ast.Call) and isinstance(n.value.func, ast.Attribute) \
+                and n.value.func.attr in ("append", "appendleft", "insert") and isinstance(n.value.func.value, ast.Name) \
+                and n.value.args and isinstance(n.value.args[-1], ast.Name) and n.value.args[-1].id in res:
+            records.append((n, n.value.func.value.id, n.value.func.attr))
+    if not records:
+        rep.unmodelled("MT-ACCEPT", fi, w, "how the search loop keeps the matching of a feasible probe was not recognised")
+        return
+    holders = {h for _, h, _ in records}
+    if len(holders) != 1:
+        rep.unmodelled("MT-ACCEPT", fi, w, f"the probe's matching is kept in several places ({sorted(holders)})")
+        return
+    holder = next(iter(holders))
+    kinds = {k for _, _, k in records}
+    ok = True
+    G = {id(n): _guards(w, n) for n in updates + [r[0] for r in records]}
+
+    def together(x, y):
+        return G[id(x)][1] is G[id(y)][1] or G[id(x)][0] == G[id(y)][0]
+
+    for r in records:
+        if any(together(r[0], u) for u in updates):
+            continue
+        ok = False
+        gr = G[id(r[0])][0]
+        tighter = [u for u in updates if len(G[id(u)][0]) > len(gr) and G[id(u)][0][:len(gr)] == gr]
+        if tighter and kinds <= {"name", "const-key"}:
+            rep.refuted("MT-ACCEPT", fi, r[0], f"`{holder}` takes the matching of every probe that reaches this statement, "
+                                               f"`{dist}` only the value of the probes that pass the further test at line "
+                                               f"{tighter[0].lineno}: after a probe that fails that test the reported matching is "
+                                               f"not the one found at the reported distance")
+        else:
+            rep.unmodelled("MT-ACCEPT", fi, r[0], f"`{holder}` is updated where `{dist}` is not")
+        break
+    if ok:
+        for u in updates:
+            if not any(together(r[0], u) for r in records):
+                ok = False
+                rep.unmodelled("MT-ACCEPT", fi, u, f"`{dist}` is updated where `{holder}` is not")
+                break
+    if not ok:
+        return
+    others = [n for n in ast.walk(w) if isinstance(n, (ast.Assign, ast.AugAssign, ast.Delete)) and n not in [r[0] for r in records]
+              and any(isinstance(x, ast.Name) and x.id == holder and isinstance(x.ctx, (ast.Store, ast.Del))
+                      for t in (n.targets if isinstance(n, (ast.Assign, ast.Delete)) else [n.target]) for x in ast.walk(t))]
+    if others:
+        rep.unmodelled("MT-ACCEPT", fi, others[0], f"`{holder}` is also written elsewhere in the search loop")
+        return
+    if kinds <= {"name", "const-key"}:
+        rep.discharged("MT-ACCEPT", fi, records[0][0], f"`{holder}` and `{dist}` are replaced together, under the same test: the "
+                                                       f"matching kept is the one found at the distance kept")
+        return
+    # a growing container: which entry is read after the loop
+    leaves = any(isinstance(x, (ast.Break, ast.Return)) for r in records for x in _guards(w, r[0])[1])
+    picks = []
+    after = False
+    for n in ast.walk(view):
+        if n is w:
+            after = True
+    for n in ast.walk(view):
+        if isinstance(n, (ast.Subscript, ast.Call)) and getattr(n, "lineno", 0) > w.end_lineno:
+            k = _pick_kind(n, holder)
+            if k:
+                picks.append((n, k))
+    if not picks:
+        rep.unmodelled("MT-ACCEPT", fi, w, f"which of the matchings kept in `{holder}` is reported was not recognised")
+        return
+    front = "appendleft" in kinds or "insert" in kinds
+    if front and kinds - {"appendleft", "insert"}:
+        rep.unmodelled("MT-ACCEPT", fi, w, f"`{holder}` grows at both ends")
+        return
+    if "insert" in kinds and not all(isinstance(r[0].value.args[0], ast.Constant) and r[0].value.args[0].value == 0
+                                     for r in records if r[2] == "insert"):
+        rep.unmodelled("MT-ACCEPT", fi, w, f"`{holder}` grows in the middle")
+        return
+    for n, k in picks:
+        newest = (k == "first") if front else (k == "last")
+        if newest:
+            rep.discharged("MT-ACCEPT", fi, n, f"the matching reported is the one `{holder}` received last, together with the last "
+                                               f"update of `{dist}`")
+        elif leaves:
+            rep.unmodelled("MT-ACCEPT", fi, n, f"the oldest entry of `{holder}` is reported and the loop may stop after the first one")
+        else:
+            rep.refuted("MT-ACCEPT", fi, n, f"`{dist}` keeps the value of the last feasible probe but the matching reported is the "
+                                            f"one `{holder}` received first: with two feasible probes the matching belongs to a "
+                                            f"larger distance than the one reported")
 
 
 def _rename_iv(c, riv):
@@ -485,8 +730,9 @@ def run(project: Project, rep, tier: str):
     rep.assume("the accepted Hopcroft-Karp matching maps str(row) to a column index; linear_sum_assignment returns index "
                "arrays of equal length; exact arithmetic")
     check_bottleneck(rep, project)
+    check_accept(rep, project)
     check_wasserstein(rep, project)
-    for r, n in (("MT-NONINT", 2), ("MT-COST", 2), ("MT-MINUS1", 4), ("MT-DROP", 2), ("MT-COVER", 2), ("MT-PROV", 1), ("MT-GRAPH", 1)):
+    for r, n in (("MT-NONINT", 2), ("MT-COST", 2), ("MT-MINUS1", 4), ("MT-DROP", 2), ("MT-COVER", 2), ("MT-PROV", 1), ("MT-GRAPH", 1), ("MT-ACCEPT", 1)):
         rep.floor(r, n)
     for t in ("hopcroftkarp.HopcroftKarp.maximum_matching", "scipy.optimize.linear_sum_assignment", "numpy.zeros",
               "numpy.array"):
